@@ -321,16 +321,23 @@ class LDMService:
         with self._lock:
             self.data_provider_its_aid.discard(provider_data_id)
 
-    def del_data_provider_its_aid(self, its_aid: int) -> None:
+    def del_data_provider_its_aid(self, its_aid: int) -> bool:
         """
         Method to delete provider ITS_AID from the list of data providers.
 
         Parameters
         ----------
         its_aid : int
+
+        Returns
+        -------
+        bool
+            Whether the provider was registered (and has been removed by this call).
         """
         with self._lock:
+            registered = its_aid in self.data_provider_its_aid
             self.data_provider_its_aid.discard(its_aid)
+        return registered
 
     def query(
         self, data_request: RequestDataObjectsReq
@@ -432,15 +439,21 @@ class LDMService:
             data_consumer_its_aid_copy = self.data_consumer_its_aid.copy()
         return data_consumer_its_aid_copy
 
-    def del_data_consumer_its_aid(self, its_aid: int) -> None:
+    def del_data_consumer_its_aid(self, its_aid: int) -> bool:
         """
         Method to delete data consumer ITS_AID from the list of data consumers.
 
         Parameters
         ----------
         its_aid : int
+
+        Returns
+        -------
+        bool
+            Whether the consumer was registered (and has been removed by this call).
         """
         with self._lock:
+            registered = its_aid in self.data_consumer_its_aid
             self.data_consumer_its_aid.discard(its_aid)
             # The subscriptions of a deregistered consumer end with its registration: they must
             # not come back to life if the same application registers again later.
@@ -451,6 +464,7 @@ class LDMService:
             ]
         for subscription in stale:
             self.remove_subscription(subscription)
+        return registered
 
     def delete_subscription(self, subscription_id: int) -> bool:
         """
